@@ -78,6 +78,13 @@ func c11() {
 			cc.StraceInject = append(cc.StraceInject, "-e", "inject=prctl:delay_exit=20000")
 			run.Count("children_with_a_slow_prctl", 1)
 		}
+		injectedPrctl := ""
+		if pl.strace && pl.nnp && !pl.unpriv && pl.mode == "plain" && i%7 != 5 && len(cc.StraceInject) == 0 && pl.flags%3 == 0 {
+			// the kernel declines the prctl (the call is not performed): no nil result may follow without the bit
+			injectedPrctl = []string{"EINVAL", "EPERM", "ENOSYS", "EACCES", "EAGAIN"}[(i/64)%5]
+			cc.StraceInject = append(cc.StraceInject, "-e", "inject=prctl:error="+injectedPrctl)
+			run.Count("children_with_an_injected_prctl_failure", 1)
+		}
 		desc := fmt.Sprintf("case %d: mode=%s unprivileged=%v NoNewPrivs=%v flags=%#x strace=%v", i, pl.mode, pl.unpriv, pl.nnp, pl.flags, pl.strace)
 		t0 := time.Now()
 		res, err := vlib.RunChild(bin, "nnp", cc, pl.strace, 60*time.Second)
@@ -104,6 +111,14 @@ func c11() {
 		ok, _ := l["ok"].(bool)
 		errText := fmt.Sprint(l["err"])
 		migrated, _ := l["migrated"].(bool)
+		if injectedPrctl != "" {
+			if !ok {
+				run.Count("injected_prctl_failures_surfaced_as_errors", 1)
+				return // the right answer; nothing was requested of the kernel
+			}
+			// nil although the prctl was declined: the state-based oracle below decides (the bit cannot be there)
+			desc += " prctl answered " + injectedPrctl + " by the injector"
+		}
 		if pl.mode == "migrate" && i%5 != 4 {
 			if jsonU64(l["hook_calls"]) == 0 {
 				run.Inconclusive("hook H3 was never reached: " + desc)
